@@ -74,6 +74,7 @@ def run(ctx: Ctx):
         if not ctx.quick or per[e.cls] <= 8:
             sel.append((i, e))
     progs = []      # (key, which, cplx, eqs, out, A, fn, shapes)
+    nv = {}
     unsupported_all = {}
     for i, e in sel:
         key = {"catalogue_seed": ctx.seed, "level": level, "index": i, **e.key()}
@@ -82,8 +83,18 @@ def run(ctx: Ctx):
         except Exception:
             continue
         ctx.count(e.cls, key)
-        for which, fn, shp, dt in (("forward", A, A.input_shape, A.input_dtype),
-                                    ("adjoint", A.adj, A.output_shape, A.output_dtype)):
+        maps = [("forward", A, A.input_shape, A.input_dtype), ("adjoint", A.adj, A.output_shape, A.output_dtype)]
+        # derived views of the first configurations of each class: the adjoint of the transpose,
+        # the conjugate, and the Gram operator must be linear (complex-linear) too
+        nv[e.cls] = nv.get(e.cls, 0) + 1
+        if (not ctx.quick or nv[e.cls] <= 2) and L.is_complex(A.input_dtype) == L.is_complex(A.output_dtype):
+            try:
+                T, Cj, G = A.T, A.conj(), A.gram_op
+                maps += [("T.adj", T.adj, T.output_shape, T.output_dtype), ("conj()", Cj, Cj.input_shape, Cj.input_dtype),
+                         ("gram_op", G, G.input_shape, G.input_dtype), ("T.T", T.T, A.input_shape, A.input_dtype)]
+            except Exception as ex:
+                ctx.notes.append(f"{e.cls}: derived views not available ({type(ex).__name__}); reported by C01/C12")
+        for which, fn, shp, dt in maps:
             # complex-linearity is required of operators between complex spaces; maps between a
             # real and a complex space are real-linear (the Re<.,.> clause of C01)
             cplx = L.is_complex(A.input_dtype) and L.is_complex(A.output_dtype)
@@ -138,12 +149,40 @@ def run(ctx: Ctx):
                            repr({k: v for k, v in key.items() if k not in ('A', 'B', 'd', 'h', 'x', 'diagonal')}))
         else:
             ctx.obligation(False, f"lin_check rejects the traced {which} map of {e.cls} (primitive {prim}); failing input found")
+    presented_as_linear(ctx)
     ctx.traces = len(progs)
     ctx.notes.append(f"jaxprs certified linear by reflection: {n_acc}/{len(progs)}; "
                      f"programs with unsupported control flow: {unsupported_all}")
     if ctx.violations:
         # obligations that are explained by a concrete failing input are subsumed by the violation
         ctx.broken = [b for b in ctx.broken if "failing input found" not in b["what"]]
+
+
+def presented_as_linear(ctx):
+    """sums / differences / compositions involving a non-linear Operator: whatever comes back as a
+    LinearOperator instance must be linear (the library's rule is LinearOperator +- Operator -> Operator)"""
+    import scico.numpy as snp
+    from scico import linop
+    from scico.operator import Operator, Abs
+    n = 3
+    for dt in (np.float64, np.complex128):
+        pool = L.leaf_pool(random.Random(ctx.seed + 5), n, dt)
+        nls = {"square": Operator(input_shape=(n,), eval_fn=lambda x: x * x, input_dtype=dt),
+               "abs": Operator(input_shape=(n,), eval_fn=lambda x: snp.abs(x) + 0 * x, input_dtype=dt)}
+        for name in sorted(pool):
+            for nl in sorted(nls):
+                for op in ("add", "sub", "radd", "rsub", "comp", "rcomp"):
+                    key = {"unit": "derived", "linear": name, "nonlinear": nl, "op": op, "dtype": np.dtype(dt).name}
+                    A, F = pool[name](), nls[nl]
+                    try:
+                        R = {"add": lambda: A + F, "sub": lambda: A - F, "radd": lambda: F + A, "rsub": lambda: F - A,
+                             "comp": lambda: A(F), "rcomp": lambda: F(A)}[op]()
+                    except Exception:
+                        continue
+                    ctx.count("derived-with-nonlinear", key)
+                    if isinstance(R, linop.LinearOperator):
+                        blackbox(ctx, None, R, R.input_shape, R.input_dtype, False, key,
+                                 "presented-as-linear:" + name, f"{op} with a non-linear operator returns a LinearOperator that")
 
 
 def replay(ctx: Ctx, rec):
